@@ -87,6 +87,11 @@ pub struct Ctx<'a> {
     rename: Vec<(String, String)>,
     /// actual names of the `state` places, in table order
     state_keys: Vec<String>,
+    /// boolean conditions a just translated pattern needs in addition to the Coq pattern (error variants
+    /// are matched by name: `RErr (E s [x])` + `str_eqb s "IOError"`)
+    pat_guards: Vec<String>,
+    /// names of the top-level `let mut`s of the translated statements, in order (`#i` in `locals`)
+    mut_lets: Vec<String>,
 }
 
 pub struct Out {
@@ -111,9 +116,13 @@ fn translate_mode(spec: &Spec, f_sig: &Signature, body: &Block, sigs: &BTreeMap<
         ReturnType::Default => Ty::Unit,
         ReturnType::Type(_, t) => spec.ty_of(t),
     };
-    let mut c = Ctx { spec, sigs, monadic, env: vec![], names: BTreeMap::new(), ret: ret.clone(), wrap, assigns: 0, rename: vec![], state_keys: vec![] };
+    let mut c = Ctx { spec, sigs, monadic, env: vec![], names: BTreeMap::new(), ret: ret.clone(), wrap, assigns: 0, rename: vec![], state_keys: vec![], pat_guards: vec![], mut_lets: vec![] };
     let mut binders: Vec<String> = vec![];
-    if spec.fns.iter().any(|f| f.coq_ty.ends_with("-> R")) {
+    for tp in &spec.type_params {
+        binders.push(format!("{{{} : Type}}", tp));
+        c.names.insert(tp.to_string(), 1);
+    }
+    if !spec.type_params.contains(&"R") && spec.fns.iter().any(|f| f.coq_ty.ends_with("-> R")) {
         // the result type of an opaque callee is abstract
         binders.push("{R : Type}".into());
         c.names.insert("R".into(), 1);
@@ -163,11 +172,12 @@ fn translate_mode(spec: &Spec, f_sig: &Signature, body: &Block, sigs: &BTreeMap<
     }
     // ---- which statements are translated
     let mut base_stmts: Vec<Stmt> = body.stmts.clone();
+    let mut loop_cond: Option<Expr> = None;
     if let Some(li) = spec.loop_idx {
         // the body of the li-th loop; the identifiers of its header pattern get the table's names/types
-        let mut loops: Vec<(Option<Pat>, Block, Vec<String>)> = vec![];
+        let mut loops: Vec<LoopInfo> = vec![];
         collect_loops(&body.stmts, &mut vec![], &mut loops);
-        let (pat, blk, muts) = match loops.into_iter().nth(li) {
+        let LoopInfo { pat, body: blk, muts, cond, .. } = match loops.into_iter().nth(li) {
             Some(x) => x,
             None => return unsup(&format!("the function has no loop number {}", li), body.span()),
         };
@@ -209,6 +219,45 @@ fn translate_mode(spec: &Spec, f_sig: &Signature, body: &Block, sigs: &BTreeMap<
             }
         }
         base_stmts = blk.stmts.clone();
+        if spec.loop_cond {
+            match cond {
+                Some(ce) => loop_cond = Some(ce),
+                None => return unsup("loop_cond: the loop is not a `while <condition>` loop", blk.span()),
+            }
+        }
+    }
+    if let Some(li) = spec.after_loop {
+        // the top-level statements following the li-th loop; `#i` state = the i-th `let mut` before it
+        let mut loops: Vec<LoopInfo> = vec![];
+        collect_loops(&body.stmts, &mut vec![], &mut loops);
+        let info = match loops.into_iter().nth(li) {
+            Some(x) => x,
+            None => return unsup(&format!("the function has no loop number {}", li), body.span()),
+        };
+        let at = body.stmts.iter().position(|s| {
+            let (a, b) = (s.span().start(), s.span().end());
+            (a.line, a.column) <= info.pos && info.pos < (b.line, b.column)
+        });
+        let at = match at {
+            Some(i) => i,
+            None => return unsup("after_loop: the loop is not inside a top-level statement", body.span()),
+        };
+        for st in &spec.state {
+            if let Some(i) = st.pat.strip_prefix('#') {
+                let i: usize = i.parse().map_err(|_| TErr::Unsupported("bad #i state".into()))?;
+                match info.muts.get(i) {
+                    Some(actual) => {
+                        if actual != st.param {
+                            c.rename.push((actual.clone(), st.param.to_string()));
+                        }
+                        c.state_keys.push(actual.clone());
+                        c.env.push((actual.clone(), Tm::atom(st.param, st.ty.clone())));
+                    }
+                    None => return unsup(&format!("no `let mut` number {} before the loop", i), body.span()),
+                }
+            }
+        }
+        base_stmts = body.stmts[at + 1..].to_vec();
     }
     for st in &spec.state {
         if !st.pat.starts_with('#') {
@@ -255,7 +304,24 @@ fn translate_mode(spec: &Spec, f_sig: &Signature, body: &Block, sigs: &BTreeMap<
             }
         }
     };
+    for st in &stmts {
+        if let Stmt::Local(l) = st {
+            let mut p = &l.pat;
+            if let Pat::Type(pt) = p {
+                p = &pt.pat;
+            }
+            if let Pat::Ident(pi) = p {
+                if pi.mutability.is_some() {
+                    c.mut_lets.push(pi.ident.to_string());
+                }
+            }
+        }
+    }
     let fin: &dyn Fn(&mut Ctx, Tm) -> R = &|c, tm| {
+        if c.spec.step.is_some() && c.spec.after_loop.is_some() {
+            // the statements after a loop end the function: its value
+            return c.finish(tm);
+        }
         if c.spec.step.is_some() {
             return c.step_value("KNext");
         }
@@ -273,7 +339,17 @@ fn translate_mode(spec: &Spec, f_sig: &Signature, body: &Block, sigs: &BTreeMap<
         }
         c.finish(tm)
     };
-    let term = if spec.locals.is_some() || spec.step.is_some() {
+    let term = if let Some(ce) = &loop_cond {
+        // `while cond { body }`: one step = `if cond then body else KBreak state`
+        c.expr(ce, &|c, cond| {
+            if cond.ty != Ty::Bool {
+                return unsup("loop condition is not a bool", ce.span());
+            }
+            let body = c.branch(|c| c.stmts_open(&stmts, fin))?;
+            let brk = c.step_value("KBreak")?;
+            Ok(format!("if {} then\n{}\nelse\n{}", cond.s, body, brk))
+        })?
+    } else if spec.locals.is_some() || spec.step.is_some() {
         // the truncated list ends with a `let`: the continuation sees the bound locals
         c.stmts_open(&stmts, fin)?
     } else {
@@ -299,30 +375,39 @@ fn translate_mode(spec: &Spec, f_sig: &Signature, body: &Block, sigs: &BTreeMap<
     Ok(Out { def, sig })
 }
 
-/// loops of a function body in source order: (header pattern, body, names of the top-level `let mut`s before it)
-fn collect_loops(stmts: &[Stmt], _muts: &mut Vec<String>, out: &mut Vec<(Option<Pat>, Block, Vec<String>)>) {
+/// a loop of a function body: header pattern, body, names of the top-level `let mut`s before it, the
+/// condition of a `while <cond>` loop, position of the loop keyword
+pub struct LoopInfo {
+    pat: Option<Pat>,
+    body: Block,
+    muts: Vec<String>,
+    cond: Option<Expr>,
+    pos: (usize, usize),
+}
+/// loops of a function body in source order
+fn collect_loops(stmts: &[Stmt], _muts: &mut Vec<String>, out: &mut Vec<LoopInfo>) {
     use syn::visit::Visit;
     struct V {
-        found: Vec<((usize, usize), Option<Pat>, Block)>,
+        found: Vec<((usize, usize), Option<Pat>, Block, Option<Expr>)>,
     }
     impl<'ast> Visit<'ast> for V {
         fn visit_expr_for_loop(&mut self, l: &'ast ExprForLoop) {
             let p = l.for_token.span.start();
-            self.found.push(((p.line, p.column), Some((*l.pat).clone()), l.body.clone()));
+            self.found.push(((p.line, p.column), Some((*l.pat).clone()), l.body.clone(), None));
             syn::visit::visit_expr_for_loop(self, l);
         }
         fn visit_expr_while(&mut self, l: &'ast ExprWhile) {
             let p = l.while_token.span.start();
-            let pat = match &*l.cond {
-                Expr::Let(el) => Some((*el.pat).clone()),
-                _ => None,
+            let (pat, cond) = match &*l.cond {
+                Expr::Let(el) => (Some((*el.pat).clone()), None),
+                ce => (None, Some(ce.clone())),
             };
-            self.found.push(((p.line, p.column), pat, l.body.clone()));
+            self.found.push(((p.line, p.column), pat, l.body.clone(), cond));
             syn::visit::visit_expr_while(self, l);
         }
         fn visit_expr_loop(&mut self, l: &'ast ExprLoop) {
             let p = l.loop_token.span.start();
-            self.found.push(((p.line, p.column), None, l.body.clone()));
+            self.found.push(((p.line, p.column), None, l.body.clone(), None));
             syn::visit::visit_expr_loop(self, l);
         }
     }
@@ -344,8 +429,8 @@ fn collect_loops(stmts: &[Stmt], _muts: &mut Vec<String>, out: &mut Vec<(Option<
         v.visit_stmt(s);
     }
     v.found.sort_by_key(|f| f.0);
-    for (pos, pat, blk) in v.found {
-        out.push((pat, blk, muts.iter().filter(|(q, _)| *q < pos).map(|(_, n)| n.clone()).collect()));
+    for (pos, pat, blk, cond) in v.found {
+        out.push(LoopInfo { pat, body: blk, muts: muts.iter().filter(|(q, _)| *q < pos).map(|(_, n)| n.clone()).collect(), cond, pos });
     }
 }
 
@@ -398,7 +483,7 @@ fn pat_ident(p: &Pat) -> Option<String> {
 
 pub fn coq_ty(t: &Ty) -> Option<String> {
     Some(match t {
-        Ty::Int(_) | Ty::NonZero | Ty::Addr | Ty::ISize | Ty::Ptr => "N".into(),
+        Ty::Int(_) | Ty::NonZero | Ty::Addr | Ty::ISize | Ty::Ptr | Ty::Slice | Ty::TPtr(_) => "N".into(),
         Ty::Either(a, b) => format!("({} + {})%type", coq_ty(a)?, coq_ty(b)?),
         Ty::Bool => "bool".into(),
         Ty::Unit => "unit".into(),
@@ -459,7 +544,14 @@ impl<'a> Ctx<'a> {
         }
         if let Some(ls) = &self.spec.locals {
             for l in ls {
-                let actual = self.rename.iter().find(|(_, c)| c == l).map(|(a, _)| a.clone()).unwrap_or(l.to_string());
+                let actual = match l.strip_prefix('#').and_then(|i| i.parse::<usize>().ok()) {
+                    // `#i`: the i-th top-level `let mut` of the translated statements
+                    Some(i) => match self.mut_lets.get(i) {
+                        Some(n) => n.clone(),
+                        None => return Err(TErr::Unsupported(format!("no `let mut` number {} in the translated statements", i))),
+                    },
+                    None => self.rename.iter().find(|(_, c)| c == l).map(|(a, _)| a.clone()).unwrap_or(l.to_string()),
+                };
                 match self.lookup(&actual) {
                     Some(t) => parts.push(t.s),
                     None => return Err(TErr::Unsupported(format!("local `{}` not in scope at `{}`", l, ctor))),
@@ -522,14 +614,36 @@ impl<'a> Ctx<'a> {
             // `return ..;` before the requested locals exist
             return Ok(if self.monadic { "Val None".into() } else { "None".into() });
         }
-        if !self.spec.effects.is_empty() {
-            return Ok(if self.monadic { "Val []".into() } else { "[]".into() });
+        if !self.spec.effects.is_empty() && !self.spec.effects_ret {
+            return Ok(if self.monadic { "Val (@nil call)".into() } else { "(@nil call)".into() });
         }
-        let v = match self.spec.ret_wrap {
+        let mut v = match self.spec.ret_wrap {
             // a plain integer the function returns next to results of opaque calls of abstract type R
             Some(w) if is_int(&tm.ty) => format!("({} {})", w, tm.s),
             _ => tm.s,
         };
+        // a function that assigns to declared state places / whose locals are requested:
+        // (value, final state.., locals..)
+        if !self.state_keys.is_empty() || !self.spec.with_locals.is_empty() {
+            let mut parts = vec![v];
+            for k in self.state_keys.clone() {
+                match self.lookup(&k) {
+                    Some(t) => parts.push(t.s),
+                    None => return Err(TErr::Unsupported(format!("state `{}` not in scope", k))),
+                }
+            }
+            for l in &self.spec.with_locals {
+                let actual = self.rename.iter().find(|(_, c)| c == l).map(|(a, _)| a.clone()).unwrap_or(l.to_string());
+                match self.lookup(&actual) {
+                    Some(t) => parts.push(t.s),
+                    None => return Err(TErr::Unsupported(format!("local `{}` not in scope where the function returns", l))),
+                }
+            }
+            v = format!("({})", parts.join(", "));
+        }
+        if self.spec.effects_ret {
+            v = format!("(@nil call, {})", v);
+        }
         Ok(if self.monadic { format!("Val {}", v) } else { v })
     }
 
@@ -589,6 +703,15 @@ impl<'a> Ctx<'a> {
                 if self.spec.skip.iter().any(|p| *p == ik) {
                     return self.stmts(rest, k);
                 }
+                if let Some(bound) = pat_ident(&l.pat) {
+                    let cn = self.canon(&bound);
+                    // a local closure that the table declares as an opaque callee; a `let` dropped by name
+                    let opaque_closure = matches!(&**init, Expr::Closure(_))
+                        && (self.spec.effects.iter().any(|m| *m == cn) || self.spec.fns.iter().any(|f| f.method == cn));
+                    if opaque_closure || self.spec.skip_lets.iter().any(|x| *x == cn) {
+                        return self.stmts(rest, k);
+                    }
+                }
                 if let Some((_, cn)) = self.spec.skip_as.iter().find(|(p, _)| *p == ik) {
                     if let Some(actual) = pat_ident(&l.pat) {
                         if actual != *cn {
@@ -602,6 +725,7 @@ impl<'a> Ctx<'a> {
                 self.env.truncate(envlen.min(self.env.len()));
                 r
             }
+            Stmt::Expr(e, _) if is_verif_hook(e) => self.stmts(rest, k),
             Stmt::Expr(e, semi) => {
                 let ek = self.nk(e);
                 if self.spec.skip.iter().any(|p| *p == ek) {
@@ -712,6 +836,7 @@ impl<'a> Ctx<'a> {
                 },
                 _ => unsup("literal pattern (only bool / integer literals)", p.span()),
             },
+            Pat::Tuple(pt) if pt.elems.is_empty() => Ok(("tt".into(), vec![])),
             Pat::Tuple(pt) => {
                 let tys: Vec<Ty> = match ty {
                     Ty::Tup(v) if v.len() == pt.elems.len() => v.clone(),
@@ -728,6 +853,20 @@ impl<'a> Ctx<'a> {
             }
             Pat::TupleStruct(ts) => {
                 let last = ts.path.segments.last().unwrap().ident.to_string();
+                let nseg = ts.path.segments.len();
+                if nseg >= 2 && self.spec.err_enums.iter().any(|n| ts.path.segments[nseg - 2].ident == *n) {
+                    // `Enum::Variant(p..)` of an error enum: E s [p..] with the variant compared by name
+                    let sv = self.fresh("s");
+                    let mut ss = vec![];
+                    let mut bs = vec![];
+                    for e in ts.elems.iter() {
+                        let (s, b) = self.pattern(e, &Ty::Int(64))?;
+                        ss.push(s);
+                        bs.extend(b);
+                    }
+                    self.pat_guards.push(format!("str_eqb {} \"{}\"", sv, last));
+                    return Ok((format!("(E {} [{}])", sv, ss.join("; ")), bs));
+                }
                 if ts.elems.len() != 1 {
                     return unsup("constructor pattern arity", p.span());
                 }
@@ -836,8 +975,23 @@ impl<'a> Ctx<'a> {
                 })
             }
             Expr::Cast(c) => {
-                let to = self.spec.ty_of(&c.ty);
+                let mut to = self.spec.ty_of(&c.ty);
+                if let Type::Ptr(tp) = &*c.ty {
+                    // `p as *mut u64`: the same address, accessed with that width
+                    to = match norm(&*tp.elem).as_str() {
+                        "u64" | "usize" => Ty::TPtr(8),
+                        "u32" => Ty::TPtr(4),
+                        "u16" => Ty::TPtr(2),
+                        "u8" => Ty::TPtr(1),
+                        _ => Ty::Ptr,
+                    };
+                }
                 self.expr(&c.expr, &|cx, t| match (&t.ty, &to) {
+                    (Ty::Ptr, Ty::TPtr(_)) | (Ty::Ptr, Ty::Ptr) => k(cx, Tm { ty: to.clone(), ..t }),
+                    // narrowing: the low bits
+                    (Ty::Int(64), Ty::Int(b)) | (Ty::Addr, Ty::Int(b)) if *b < 64 => {
+                        k(cx, Tm::app(format!("{} mod {}", t.s, 1u128 << *b), to.clone()))
+                    }
                     (Ty::Int(a), Ty::Int(b)) if a <= b => k(cx, Tm { ty: to.clone(), ..t }),
                     (Ty::NonZero, Ty::Int(64)) | (Ty::Addr, Ty::Int(64)) => k(cx, Tm { ty: to.clone(), ..t }),
                     // isize is represented by its bit pattern, a pointer by its address
@@ -850,6 +1004,7 @@ impl<'a> Ctx<'a> {
             Expr::Match(m) => self.match_expr(m, k),
             Expr::Block(b) => self.block(&b.block, k),
             Expr::Unsafe(b) => self.block(&b.block, k),
+            Expr::Return(r) if self.spec.break_value => unsup("`return` inside a loop used as an expression", r.span()),
             Expr::Return(r) => match &r.expr {
                 // a "locals" kernel only records THAT the function returned early, not what
                 Some(_) if self.spec.locals.is_some() => self.finish(Tm::unit()),
@@ -900,6 +1055,9 @@ impl<'a> Ctx<'a> {
                 self.expr(&a.right, &|c, tm| c.assign(&place, tm, a.span(), &|c| k(c, Tm::unit())))
             }
             Expr::Break(b) if b.expr.is_none() && b.label.is_none() && self.spec.loop_idx.is_some() => self.step_value("KBreak"),
+            Expr::Break(b) if b.expr.is_some() && b.label.is_none() && self.spec.loop_idx.is_some() && self.spec.break_value => {
+                self.expr(b.expr.as_ref().unwrap(), &|c, tm| c.step_return(tm))
+            }
             Expr::Continue(cn) if cn.label.is_none() && self.spec.loop_idx.is_some() => self.step_value("KNext"),
             Expr::Struct(s) => {
                 let name = s.path.segments.last().unwrap().ident.to_string();
@@ -923,9 +1081,49 @@ impl<'a> Ctx<'a> {
                     }
                 })
             }
-            Expr::Index(_) => unsup("indexing (declare the access as an opaque call)", e.span()),
+            Expr::Index(ix) => {
+                // `s[a..]` on a slice seen as its length: panics when a > len, the rest has len - a bytes
+                if let Expr::Range(r) = strip_paren(&ix.index) {
+                    if let (Some(start), None, RangeLimits::HalfOpen(_)) = (&r.start, &r.end, &r.limits) {
+                        let line = line_of(ix.bracket_token.span.open());
+                        return self.expr(&ix.expr, &|c, base| {
+                            if base.ty != Ty::Slice {
+                                return unsup("range indexing of a value that is not a byte slice", ix.span());
+                            }
+                            c.expr(start, &|c, a| {
+                                if !is_w64(&a.ty) {
+                                    return unsup("slice range start is not a usize", ix.span());
+                                }
+                                if !c.monadic {
+                                    return Err(TErr::NeedMonad);
+                                }
+                                let rest = k(c, Tm::app(format!("{} - {}", base.s, a.s), Ty::Slice))?;
+                                Ok(format!("let* _ := passert {} ({} <=? {}) in\n{}", line, a.s, base.s, rest))
+                            })
+                        });
+                    }
+                }
+                unsup("indexing (declare the access as an opaque call)", e.span())
+            }
+            Expr::Macro(m) if m.mac.path.is_ident("unreachable") => {
+                if !self.monadic {
+                    return Err(TErr::NeedMonad);
+                }
+                Ok(format!("Panic {}", line_of(m.mac.path.span())))
+            }
             Expr::Macro(m) => unsup(&format!("macro `{}` in expression position", norm(&m.mac.path)), e.span()),
-            Expr::Closure(_) => unsup("closure outside map/and_then", e.span()),
+            Expr::Closure(cl) => {
+                // a closure handed to an opaque function: a Coq function (pure body only)
+                let (binders, binds) = self.closure_binders(cl)?;
+                let envlen = self.env.len();
+                self.env.extend(binds);
+                let b = self.probe(&|c, kk| c.expr(&cl.body, kk));
+                self.env.truncate(envlen);
+                match b? {
+                    Some(b) => k(self, Tm::app(format!("fun {} => {}", binders.join(" "), b.s), Ty::Unknown)),
+                    None => unsup("closure body with panicking operations / control flow", e.span()),
+                }
+            }
             Expr::Loop(_) | Expr::While(_) | Expr::ForLoop(_) => unsup("loop", e.span()),
             _ => unsup(&format!("expression `{}`", key), e.span()),
         }
@@ -933,6 +1131,11 @@ impl<'a> Ctx<'a> {
 
     /// the environment key of an assignable place: a local variable or a declared state place
     fn place_key(&self, e: &Expr) -> std::result::Result<String, TErr> {
+        if let Expr::Unary(u) = e {
+            if matches!(u.op, UnOp::Deref(_)) {
+                return self.place_key(&u.expr);
+            }
+        }
         if let Expr::Path(p) = e {
             if let Some(id) = p.path.get_ident() {
                 return Ok(id.to_string());
@@ -1069,6 +1272,17 @@ impl<'a> Ctx<'a> {
                         if !both_int {
                             return unsup("ordering comparison on non-integers", b.span());
                         }
+                        if l.ty == Ty::ISize || r.ty == Ty::ISize {
+                            // isize values are bit patterns: compare the numbers they stand for
+                            let (x, y) = (format!("sgn64 {}", l.s), format!("sgn64 {}", r.s));
+                            let s = match &b.op {
+                                BinOp::Lt(_) => format!("({} <? {})%Z", x, y),
+                                BinOp::Le(_) => format!("({} <=? {})%Z", x, y),
+                                BinOp::Gt(_) => format!("({} <? {})%Z", y, x),
+                                _ => format!("({} <=? {})%Z", y, x),
+                            };
+                            return k(c, Tm::app(s, Ty::Bool));
+                        }
                         let s = match &b.op {
                             BinOp::Lt(_) => format!("{} <? {}", l.s, r.s),
                             BinOp::Le(_) => format!("{} <=? {}", l.s, r.s),
@@ -1101,9 +1315,9 @@ impl<'a> Ctx<'a> {
         if let Expr::Let(l) = &*i.cond {
             // if let PAT = e { A } else { B }
             return self.expr(&l.expr, &|c, scrut| {
-                let envlen = c.env.len();
+                c.pat_guards.clear();
                 let (ps, binds) = c.pattern(&l.pat, &scrut.ty)?;
-                let _ = envlen;
+                let guards = std::mem::take(&mut c.pat_guards);
                 let a = c.branch(|c| {
                     c.env.extend(binds);
                     c.block(&i.then_branch, k)
@@ -1112,7 +1326,11 @@ impl<'a> Ctx<'a> {
                     Some((_, e)) => c.branch(|c| c.expr(e, k))?,
                     None => c.branch(|c| k(c, Tm::unit()))?,
                 };
-                Ok(format!("match {} with {} =>\n{}\n| _ =>\n{} end", scrut.s, ps, a, b))
+                if guards.is_empty() {
+                    Ok(format!("match {} with {} =>\n{}\n| _ =>\n{} end", scrut.s, ps, a, b))
+                } else {
+                    Ok(format!("match {} with {} =>\nif {} then\n{}\nelse\n{}\n| _ =>\n{} end", scrut.s, ps, guards.join(" && "), a, b, b))
+                }
             });
         }
         self.expr(&i.cond, &|c, cond| {
@@ -1151,6 +1369,10 @@ impl<'a> Ctx<'a> {
                 for arm in &arms {
                     let envlen = c.env.len();
                     let (ps, binds) = c.pattern(&arm.pat, &scrut.ty)?;
+                    if !c.pat_guards.is_empty() {
+                        c.pat_guards.clear();
+                        return unsup("error-variant pattern in a `match` (only `if let` is supported)", arm.pat.span());
+                    }
                     c.env.extend(binds);
                     let p = c.probe(&|c, kk| c.expr(&arm.body, kk));
                     c.env.truncate(envlen);
@@ -1193,6 +1415,10 @@ impl<'a> Ctx<'a> {
         let mut out = vec![];
         for arm in plain {
             let (ps, binds) = self.pattern(&arm.pat, &scrut.ty)?;
+            if !self.pat_guards.is_empty() {
+                self.pat_guards.clear();
+                return unsup("error-variant pattern in a `match` (only `if let` is supported)", arm.pat.span());
+            }
             let body = self.branch(|c| {
                 c.env.extend(binds);
                 c.expr(&arm.body, k)
@@ -1284,7 +1510,9 @@ impl<'a> Ctx<'a> {
             Expr::Struct(s) => &s.path,
             _ => return false,
         };
-        p.segments.len() >= 2 && self.spec.err_enums.iter().any(|n| p.segments[p.segments.len() - 2].ident == *n)
+        // a variant starts with an upper-case letter (`std::io::Error::new(..)` is not one)
+        let upper = p.segments.last().map(|s| s.ident.to_string().chars().next().map(|c| c.is_uppercase()).unwrap_or(false)).unwrap_or(false);
+        upper && p.segments.len() >= 2 && self.spec.err_enums.iter().any(|n| p.segments[p.segments.len() - 2].ident == *n)
     }
 
     fn call_kernel(&mut self, sig: &Sig, args: Vec<Tm>, line: usize, k: K) -> R {
@@ -1402,9 +1630,16 @@ impl<'a> Ctx<'a> {
         if (last == "min" || last == "max") && args.len() == 2 && (path.segments.len() == 1 || path.segments.iter().any(|s| s.ident == "cmp")) {
             return self.exprs(&args, &|c, t| k(c, Tm::app(format!("N.{} {} {}", last, t[0].s, t[1].s), t[0].ty.clone())));
         }
+        // std::mem::take(slice): the slice itself (what is left behind is overwritten by the assignment)
+        if last == "take" && args.len() == 1 && path.segments.iter().any(|s| s.ident == "mem") {
+            return self.expr(args[0], k);
+        }
         // another kernel of the same group (free function, or Self::f / Type::f)
         let key = format!("{}::{}", self.spec.group, last);
-        if let Some(sig) = self.sigs.get(&key).cloned() {
+        if let Some(mut sig) = self.sigs.get(&key).cloned() {
+            if sig.module != self.spec.module {
+                sig.coq = format!("Gen.{}.{}", sig.module, sig.coq);
+            }
             return self.exprs(&args, &|c, t| c.call_kernel(&sig, t, line, k));
         }
         unsup(&format!("call of `{}`", norm(&call.func)), call.span())
@@ -1421,15 +1656,24 @@ impl<'a> Ctx<'a> {
     fn effect_call(&mut self, name: &str, all: Vec<&Expr>, sp: proc_macro2::Span, k: K) -> R {
         let name = name.to_string();
         self.exprs(&all, &|c, tms| {
+            let mut parts = vec![];
             for t in &tms {
-                if !is_int(&t.ty) {
-                    return unsup("non-integer argument of an effect call", sp);
+                match &t.ty {
+                    ty if is_int(ty) => parts.push(t.s.clone()),
+                    Ty::Ptr | Ty::Slice => parts.push(t.s.clone()),
+                    Ty::TPtr(w) => {
+                        parts.push(t.s.clone());
+                        parts.push(format!("{}", w));
+                    }
+                    Ty::Bool => parts.push(format!("(N.b2n {})", t.s)),
+                    Ty::Unit => {}
+                    _ => return unsup("non-integer argument of an effect call", sp),
                 }
             }
             let rest = k(c, Tm::unit())?;
-            let l = tms.iter().map(|t| t.s.clone()).collect::<Vec<_>>().join("; ");
+            let l = parts.join("; ");
             let call = format!("Call \"{}\" [{}]", name, l);
-            Ok(match (c.spec.step.is_some(), c.monadic) {
+            Ok(match (c.spec.step.is_some() || c.spec.effects_ret, c.monadic) {
                 (false, false) => format!("{} ::\n{}", call, rest),
                 (false, true) => format!("ocons ({})\n({})", call, rest),
                 (true, false) => format!("ecall ({})\n({})", call, rest),
@@ -1438,29 +1682,123 @@ impl<'a> Ctx<'a> {
         })
     }
 
-    fn closure1<'e>(&mut self, e: &'e Expr) -> std::result::Result<(Option<String>, &'e Expr), TErr> {
+    /// one-parameter closure applied to a value of type `ty`: (Coq pattern, bindings, body)
+    fn closure1<'e>(&mut self, e: &'e Expr, ty: &Ty) -> std::result::Result<(String, Vec<(String, Tm)>, &'e Expr), TErr> {
         match e {
             Expr::Closure(c) if c.inputs.len() == 1 => {
-                let name = match &c.inputs[0] {
-                    Pat::Ident(pi) => Some(pi.ident.to_string()),
-                    Pat::Wild(_) => None,
-                    _ => return unsup("closure parameter pattern", e.span()),
-                };
-                Ok((name, &c.body))
+                self.closure_renames(c);
+                let (ps, binds) = self.pattern(&c.inputs[0], ty)?;
+                if !self.pat_guards.is_empty() {
+                    self.pat_guards.clear();
+                    return unsup("closure parameter pattern", e.span());
+                }
+                Ok((ps, binds, &c.body))
             }
             _ => unsup("expected a one-parameter closure", e.span()),
         }
+    }
+
+    /// canonical names (table: closure_params) for the identifiers a closure's parameters bind, positionally
+    fn closure_renames(&mut self, cl: &ExprClosure) {
+        let mut ids = vec![];
+        for p in &cl.inputs {
+            let before = ids.len();
+            pat_idents(p, &mut ids);
+            if ids.len() == before {
+                ids.push("_".to_string()); // a wildcard keeps its position
+            }
+        }
+        for (actual, (cn, _)) in ids.iter().zip(self.spec.closure_params.iter()) {
+            if actual != "_" && actual != cn && !self.rename.iter().any(|(a, _)| a == actual) {
+                self.rename.push((actual.clone(), cn.to_string()));
+            }
+        }
+    }
+
+    /// binders and bindings of a closure translated as a Coq function: one binder per parameter,
+    /// types from the table (closure_params, positional; Unit = opaque object without binder)
+    fn closure_binders(&mut self, cl: &ExprClosure) -> std::result::Result<(Vec<String>, Vec<(String, Tm)>), TErr> {
+        self.closure_renames(cl);
+        let mut binders = vec![];
+        let mut binds = vec![];
+        for (i, p) in cl.inputs.iter().enumerate() {
+            let ty = self.spec.closure_params.get(i).map(|(_, t)| t.clone()).unwrap_or(Ty::Int(64));
+            let mut q = p;
+            if let Pat::Type(pt) = q {
+                q = &pt.pat;
+            }
+            match q {
+                Pat::Wild(_) => {
+                    if ty != Ty::Unit {
+                        binders.push("_".to_string());
+                    }
+                }
+                Pat::Ident(pi) => {
+                    let name = pi.ident.to_string();
+                    if ty == Ty::Unit {
+                        binds.push((name, Tm::atom("tt", Ty::Unit)));
+                    } else {
+                        let v = self.fresh(&format!("v_{}", self.canon(&name)));
+                        binders.push(v.clone());
+                        binds.push((name, Tm::atom(v, ty)));
+                    }
+                }
+                _ => return unsup("closure parameter pattern", p.span()),
+            }
+        }
+        if binders.is_empty() {
+            binders.push("_".to_string());
+        }
+        Ok((binders, binds))
     }
 
     fn method(&mut self, mc: &ExprMethodCall, k: K) -> R {
         let name = mc.method.to_string();
         let line = line_of(mc.method.span());
         let args: Vec<&Expr> = mc.args.iter().collect();
+        // self.iter().map(F).fold(INIT, G)  ->  (INIT, fun <extras of F> => F .., G)
+        if let (Some(grp), "fold", 2) = (self.spec.iter_fold, name.as_str(), args.len()) {
+            if let Expr::MethodCall(mapc) = &*mc.receiver {
+                if mapc.method == "map" && mapc.args.len() == 1 && self.nk(&*mapc.receiver) == "self . iter ()" {
+                    let fname = match &mapc.args[0] {
+                        Expr::Path(p) => p.path.segments.last().unwrap().ident.to_string(),
+                        _ => return unsup("iter_fold: the mapped function is not a path", mapc.span()),
+                    };
+                    let sig = match self.sigs.get(&format!("{}::{}", grp, fname)).cloned() {
+                        Some(s) => s,
+                        None => return unsup(&format!("iter_fold: `{}` is not a kernel of group {}", fname, grp), mapc.span()),
+                    };
+                    let g = match &args[1] {
+                        Expr::Path(p) => match p.path.segments.last().unwrap().ident.to_string().as_str() {
+                            "max" => "N.max",
+                            "min" => "N.min",
+                            _ => return unsup("iter_fold: the combining function is not max / min", mc.span()),
+                        },
+                        _ => return unsup("iter_fold: the combining function is not a path", mc.span()),
+                    };
+                    if sig.monadic && !self.monadic {
+                        return Err(TErr::NeedMonad);
+                    }
+                    let mut coq = sig.coq.clone();
+                    if sig.module != self.spec.module {
+                        coq = format!("Gen.{}.{}", sig.module, coq);
+                    }
+                    let xs = sig.extra.join(" ");
+                    let f = format!("(fun {} => {}{} {})", xs, coq, if sig.monadic { " m" } else { "" }, xs);
+                    return self.expr(args[0], &|c, init| {
+                        k(c, Tm { s: format!("({}, {}, {})", init.s, f, g), ty: Ty::Unknown, atomic: false })
+                    });
+                }
+            }
+            return unsup("iter_fold: expected self.iter().map(F).fold(INIT, G)", mc.span());
+        }
         // opaque unit-returning calls of effect kernels
         if self.spec.effects.iter().any(|m| *m == name) {
             let mut all: Vec<&Expr> = vec![];
             if let Expr::Index(ix) = &*mc.receiver {
                 all.push(&ix.index);
+            } else if self.spec.recv_arg.iter().any(|m| *m == name) {
+                all.push(&*mc.receiver);
             }
             for a in self.select_args(&name, &args) {
                 if !norm(a).starts_with("Ordering ::") {
@@ -1474,6 +1812,8 @@ impl<'a> Ctx<'a> {
             let mut all: Vec<&Expr> = vec![];
             if let Expr::Index(ix) = &*mc.receiver {
                 all.push(&ix.index);
+            } else if self.spec.recv_arg.iter().any(|m| *m == name) {
+                all.push(&*mc.receiver);
             }
             for a in self.select_args(&name, &args) {
                 if !norm(a).starts_with("Ordering ::") {
@@ -1482,6 +1822,7 @@ impl<'a> Ctx<'a> {
             }
             let (p, ty) = (f.param, f.ret.clone());
             return self.exprs(&all, &|c, tms| {
+                let tms: Vec<&Tm> = tms.iter().filter(|t| t.ty != Ty::Unit).collect();
                 let l = tms.iter().map(|t| t.s.clone()).collect::<Vec<_>>().join(" ");
                 if tms.is_empty() { k(c, Tm::atom(p, ty.clone())) } else { k(c, Tm::app(format!("{} {}", p, l), ty.clone())) }
             });
@@ -1504,7 +1845,7 @@ impl<'a> Ctx<'a> {
             if let Some(sig) = self.sigs.get(&key).cloned() {
                 return self.exprs(&args, &|c, t| c.call_kernel(&sig, t, line, k));
             }
-            if !self.spec.extra.iter().any(|x| x.pat == "self") {
+            if !self.spec.extra.iter().any(|x| x.pat == "self") && self.lookup("self").is_none() {
                 return unsup(&format!("method `self.{}` (not a kernel of this group, not declared opaque)", name), mc.span());
             }
         }
@@ -1522,16 +1863,9 @@ impl<'a> Ctx<'a> {
                             }
                         }
                     }
-                    let (pn, body) = c.closure1(args[0])?;
+                    let (v, binds, body) = c.closure1(args[0], inner)?;
                     let envlen = c.env.len();
-                    let v = match &pn {
-                        Some(n) => {
-                            let v = c.fresh(&format!("v_{}", n));
-                            c.env.push((n.clone(), Tm::atom(v.clone(), (**inner).clone())));
-                            v
-                        }
-                        None => "_".to_string(),
-                    };
+                    c.env.extend(binds.clone());
                     let b = c.probe(&|c, kk| c.expr(body, kk));
                     c.env.truncate(envlen);
                     match b? {
@@ -1542,9 +1876,64 @@ impl<'a> Ctx<'a> {
                                 k(c, Tm::app(format!("match {} with Some {} => {} | None => None end", recv.s, v, b.s), b.ty))
                             }
                         }
+                        None => {
+                            // the body panics / branches: the rest of the function goes into both arms
+                            let is_map = name == "map";
+                            let some = c.branch(|c| {
+                                c.env.extend(binds.clone());
+                                c.expr(body, &|c, b| {
+                                    if is_map {
+                                        k(c, Tm::app(format!("Some {}", b.s), Ty::Opt(Box::new(b.ty.clone()))))
+                                    } else {
+                                        k(c, b)
+                                    }
+                                })
+                            })?;
+                            let none = c.branch(|c| k(c, Tm::atom("None", Ty::Opt(Box::new(Ty::Unknown)))))?;
+                            Ok(format!("match {} with Some {} =>\n{}\n| None =>\n{} end", recv.s, v, some, none))
+                        }
+                    }
+                }
+                // ---- Result: and_then / map with a pure one-expression closure
+                (Ty::Res(inner), "and_then") | (Ty::Res(inner), "map") if args.len() == 1 && matches!(args[0], Expr::Closure(_)) => {
+                    let (v, binds, body) = c.closure1(args[0], inner)?;
+                    let envlen = c.env.len();
+                    c.env.extend(binds);
+                    let b = c.probe(&|c, kk| c.expr(body, kk));
+                    c.env.truncate(envlen);
+                    let ev = c.fresh("e");
+                    match b? {
+                        Some(b) => {
+                            if name == "map" {
+                                k(c, Tm::app(format!("match {} with ROk {} => ROk {} | RErr {} => RErr {} end", recv.s, v, b.s, ev, ev), Ty::Res(Box::new(b.ty))))
+                            } else {
+                                k(c, Tm::app(format!("match {} with ROk {} => {} | RErr {} => RErr {} end", recv.s, v, b.s, ev, ev), b.ty))
+                            }
+                        }
                         None => unsup("closure body with panicking operations / control flow", mc.span()),
                     }
                 }
+                // ---- byte slices seen as their length
+                (Ty::Slice, "len") if args.is_empty() => k(c, Tm { ty: Ty::Int(64), ..recv.clone() }),
+                (Ty::Slice, "is_empty") if args.is_empty() => k(c, Tm::app(format!("{} =? 0", recv.s), Ty::Bool)),
+                (Ty::Slice, "split_at") | (Ty::Slice, "split_at_mut") if args.len() == 1 => c.expr(args[0], &|c, a| {
+                    if !is_w64(&a.ty) {
+                        return unsup("split_at of a non-usize", mc.span());
+                    }
+                    if !c.monadic {
+                        return Err(TErr::NeedMonad);
+                    }
+                    let rest = k(c, Tm { s: format!("({}, {} - {})", a.s, recv.s, a.s), ty: Ty::Tup(vec![Ty::Slice, Ty::Slice]), atomic: false })?;
+                    Ok(format!("let* _ := passert {} ({} <=? {}) in\n{}", line, a.s, recv.s, rest))
+                }),
+                // isize -> usize: fails for negative values
+                (Ty::ISize, "try_into") if args.is_empty() => k(c, Tm::app(format!("isize_try_from {}", recv.s), Ty::Opt(Box::new(Ty::Int(64))))),
+                (Ty::Ptr, "add") if args.len() == 1 && c.spec.ptr_checked => c.expr(args[0], &|c, a| {
+                    if !is_w64(&a.ty) {
+                        return unsup("pointer add of a non-usize", mc.span());
+                    }
+                    c.bind_op(format!("padd m {} {} {}", line, recv.s, a.s), Ty::Ptr, k)
+                }),
                 (Ty::Res(inner), "ok") if args.is_empty() && **inner == Ty::ISize => {
                     // only for isize::try_from: `isize_try_from` already is the option
                     k(c, Tm { ty: Ty::Opt(inner.clone()), ..recv.clone() })
@@ -1562,6 +1951,8 @@ impl<'a> Ctx<'a> {
                     }
                     k(c, Tm::app(format!("checked_mul_i64 {} {}", recv.s, a.s), Ty::Opt(Box::new(Ty::ISize))))
                 }),
+                // the failure of an opaque effect call is not modelled
+                (Ty::Unit, "unwrap") if args.is_empty() => k(c, recv.clone()),
                 (Ty::Opt(_), "is_none") => k(c, Tm::app(format!("match {} with Some _ => false | None => true end", recv.s), Ty::Bool)),
                 (Ty::Opt(_), "is_some") => k(c, Tm::app(format!("match {} with Some _ => true | None => false end", recv.s), Ty::Bool)),
                 (Ty::Opt(inner), "unwrap") => {
@@ -1649,6 +2040,20 @@ fn full_ctor(p: &Pat, _newtypes: &[&str]) -> Option<String> {
         Pat::TupleStruct(ts) if ts.elems.len() == 1 && irrefutable(&ts.elems[0]) => Some(ts.path.segments.last().unwrap().ident.to_string()),
         _ => None,
     }
+}
+
+/// a statement under `#[cfg(vm_memory_verif)]`: a verification hook, not part of the crate's behaviour
+fn is_verif_hook(e: &Expr) -> bool {
+    let attrs: &[Attribute] = match e {
+        Expr::Call(x) => &x.attrs,
+        Expr::MethodCall(x) => &x.attrs,
+        Expr::Macro(x) => &x.attrs,
+        Expr::Block(x) => &x.attrs,
+        Expr::Unsafe(x) => &x.attrs,
+        Expr::If(x) => &x.attrs,
+        _ => return false,
+    };
+    attrs.iter().any(|a| a.path().is_ident("cfg") && a.to_token_stream().to_string().contains("vm_memory_verif"))
 }
 
 fn strip_paren(e: &Expr) -> &Expr {
